@@ -133,6 +133,9 @@ func (msg *Message) UnmarshalXML(d *xml.Decoder, start xml.StartElement) error {
 					err = d.DecodeElement(&msg.Subject, &tt)
 				case "error":
 					err = d.DecodeElement(&msg.Error, &tt)
+				default:
+					// Unknown sub-element: skip it entirely, whatever it contains
+					err = d.Skip()
 				}
 				if err != nil {
 					return err
